@@ -31,7 +31,7 @@ EXPLANATION = ('ORD over the seven extractors; API schema attributes on quantize
 TRUSTED = ['C12 single-writer rule', 'C09 velocity bins']
 NOT_DECIDED = ['multiset / step-for-step equality of extracted and original music over all inputs', 'the wrapped store piano_roll[offset - 1] for offset 0 (unobservable under the precondition after the start-order repair)']
 ASSUMPTIONS = ['no two notes of one pitch overlap or coincide (the property\'s precondition)']
-FLOORS = {'ORD': 10, 'API': 40, 'ESC': 8, 'SHIFT': 5, 'VEL': 2, 'KEYS': 4, 'MEL': 5, 'DRUM': 3, 'CHORD': 4}
+FLOORS = {'ORD': 10, 'API': 40, 'ESC': 8, 'SHIFT': 9, 'VEL': 2, 'KEYS': 4, 'MEL': 5, 'DRUM': 4, 'CHORD': 4}
 
 EXTRACTORS = [
     ('performance_lib:BasePerformance._from_quantized_sequence', ['quantized_sequence']),
@@ -82,6 +82,9 @@ def run(ctx):
   keys(ctx)
   melody(ctx)
   drums(ctx)
+  drum_gap(ctx)
+  note_perf_limit(ctx)
+  metric_limit(ctx)
   chords(ctx)
 
 
@@ -332,6 +335,83 @@ def drums(ctx):
          'a drum event is not the frozenset of the group\'s pitches stored at its step index (with set_length(index + 1))')
 
 
+def drum_gap(ctx, rule='DRUM/gap'):
+  """The track ends at the first hit that follows gap_bars whole bars of silence.  Silence starts at the step
+  after the previous hit: gap origin = (index of the last stored event) + 1, distance = index - origin,
+  end iff distance >= gap_bars * steps_per_bar (and the track is not empty).  Shared with C06."""
+  fi = ctx.func('drums_lib:DrumTrack.from_quantized_sequence')
+  fn = fi.node
+  loop = next((n for n in fn.body if isinstance(n, ast.For) and isinstance(n.target, ast.Tuple)), None)
+  ctx.require(loop is not None, 'DrumTrack.from_quantized_sequence: group loop not found')
+  st = [s for s in loop.body if isinstance(s, ast.Assign) and isinstance(s.targets[0], ast.Subscript) and norm_text(s.targets[0].value) == 'self._events']
+  ctx.require(len(st) == 1 and isinstance(st[0].targets[0].slice, ast.Name), 'DrumTrack.from_quantized_sequence: event store not found')
+  idx = st[0].targets[0].slice.id
+  brk = [s for s in loop.body if isinstance(s, ast.If) and any(isinstance(x, ast.Break) for x in s.body)]
+  ctx.require(len(brk) == 1, 'DrumTrack.from_quantized_sequence: expected one gap test with break, found %d' % len(brk))
+  spb = [t.id for s2 in fn.body if isinstance(s2, ast.Assign) and any(norm_text(t) == 'self._steps_per_bar' for t in s2.targets) for t in s2.targets if isinstance(t, ast.Name)]
+  ctx.require(len(spb) == 1, 'DrumTrack.from_quantized_sequence: the local steps-per-bar value was not found')
+
+  def rat_or_none(v):
+    try:
+      return nf.rat(v)
+    except nf.NFError:
+      return None
+  assigns = [s2 for s2 in loop.body if isinstance(s2, ast.Assign) and len(s2.targets) == 1 and isinstance(s2.targets[0], ast.Name)]
+  gaps = [s2 for s2 in assigns if s2.lineno > st[0].lineno and rat_or_none(s2.value) is not None and rat_or_none(s2.value).equals(nf.rat(E(idx)) + nf.rat(E('1')))]
+  any_after = [s2 for s2 in assigns if s2.lineno > st[0].lineno]
+  ok_upd = len(gaps) == 1
+  gname = gaps[0].targets[0].id if gaps else (any_after[0].targets[0].id if len(any_after) == 1 else None)
+  init = [s2 for s2 in fn.body if isinstance(s2, ast.Assign) and gname and norm_text(s2.targets[0]) == gname and s2.lineno < loop.lineno]
+  ok_init = len(init) == 1 and U.const_value(init[0].value) == 0
+  dist = [s2.targets[0].id for s2 in assigns if gname and s2.lineno < brk[0].lineno and rat_or_none(s2.value) is not None and
+          rat_or_none(s2.value).equals(nf.rat(E('%s - %s' % (idx, gname))))]
+  ok_cmp = len(dist) == 1 and any(isinstance(c, ast.Compare) and has(c, '%s >= gap_bars * %s' % (dist[0], spb[0])) for c in conj(brk[0].test)) and \
+      any(norm_text(c) in ('len(self)', 'self._events') for c in conj(brk[0].test))
+  ok = ok_upd and ok_init and ok_cmp
+  ctx.ob(rule, fi, gaps[0] if gaps else brk[0], ok, 'silence is measured from the step after the previous hit and ends the track at gap_bars whole bars' if ok else
+         'the silence before a hit is not (index - (previous hit index + 1)) compared with >= gap_bars * steps_per_bar (origin update ok: %s, origin starts at 0: %s, test ok: %s): '
+         'hits exactly gap_bars bars apart end the track one step early or late' % (ok_upd, ok_init, ok_cmp), construct='drum gap = index - (previous index + 1) >= gap_bars * steps_per_bar')
+
+
+def note_perf_limit(ctx, rule='SHIFT/note-limit'):
+  """NotePerformance: a time shift of exactly max_shift_steps is representable; only larger ones are rejected.  Shared with C06."""
+  fi = ctx.func('performance_lib:NotePerformance._from_quantized_sequence')
+  rs = [s for s in U.walk_stmts(fi.node) if isinstance(s, ast.If) and any(isinstance(x, ast.Raise) and 'TooManyTimeShiftStepsError' in norm_text(x) for x in s.body)]
+  ctx.require(len(rs) == 1, 'NotePerformance._from_quantized_sequence: the time-shift limit test was not found')
+  shift = roles.assigned_where(fi.node, lambda v, st: isinstance(v, ast.BinOp) and isinstance(v.op, ast.Sub) and norm_text(v.left).endswith('.quantized_start_step'))
+  ok = len(shift) == 1 and has(rs[0].test, '%s > self._max_shift_steps' % shift[0])
+  ctx.ob(rule, fi, rs[0], ok, 'shifts of 1..max_shift_steps are accepted, larger ones raise' if ok else
+         'the time-shift limit test is %s, not "shift > max_shift_steps": a shift of exactly max_shift_steps is rejected (or a larger one accepted)' % norm_text(rs[0].test),
+         construct='NotePerformance: raise iff shift > max_shift_steps')
+  dr = [s for s in U.walk_stmts(fi.node) if isinstance(s, ast.If) and any(isinstance(x, ast.Raise) and 'TooManyDurationStepsError' in norm_text(x) for x in s.body)]
+  if dr:
+    dur = roles.assigned_where(fi.node, lambda v, st: isinstance(v, ast.BinOp) and isinstance(v.op, ast.Sub) and norm_text(v.left).endswith('.quantized_end_step'))
+    ok = len(dur) == 1 and has(dr[0].test, '%s > self._max_duration_steps' % dur[0])
+    ctx.ob(rule, fi, dr[0], ok, 'durations of up to max_duration_steps are accepted' if ok else
+           'the duration limit test is %s, not "duration > max_duration_steps"' % norm_text(dr[0].test), construct='NotePerformance: raise iff duration > max_duration_steps')
+
+
+def metric_limit(ctx, rule='SHIFT/metric-limit'):
+  """MetricPerformance computes max_shift_steps twice (for the extraction and for the base constructor that
+  reports it); both must be steps_per_quarter * max_shift_quarters.  Shared with C06."""
+  fi = ctx.func('performance_lib:MetricPerformance.__init__')
+  vals = []
+  for c in U.calls_in(fi.node):
+    for k in c.keywords:
+      if k.arg == 'max_shift_steps':
+        vals.append((c, k.value))
+  ctx.require(len(vals) >= 2, 'MetricPerformance.__init__: expected the shift limit to be passed to the extraction and to the base constructor')
+  want = nf.rat(E('self._steps_per_quarter * max_shift_quarters'))
+  for c, v in vals:
+    try:
+      ok = nf.rat(v).equals(want)
+    except nf.NFError:
+      ok = False
+    ctx.ob(rule, fi, c, ok, 'max_shift_steps = steps_per_quarter * max_shift_quarters' if ok else
+           'max_shift_steps is %s here, not steps_per_quarter * max_shift_quarters: extracted shifts and the reported limit disagree' % norm_text(v),
+           construct='MetricPerformance max_shift_steps @ %s' % norm_text(c.func))
+
+
 def chords(ctx):
   fi = ctx.func('chords_lib:ChordProgression.from_quantized_sequence')
   fn = fi.node
@@ -361,6 +441,10 @@ def chords(ctx):
 
 
 MUTANTS = [
+    Mutant('seed C07_d/C06_c: drum silence measured from the previous hit itself', 'note_seq/drums_lib.py', "      gap_start_index = start_index + 1\n", "      gap_start_index = start_index\n", rule='DRUM/gap'),
+    Mutant('drum gap test strict', 'note_seq/drums_lib.py', "note_distance >= gap_bars * steps_per_bar", "note_distance > gap_bars * steps_per_bar", rule='DRUM/gap'),
+    Mutant('seed C06_d: NotePerformance rejects a shift of exactly max_shift_steps', PL, "      if time_shift_steps > self._max_shift_steps:", "      if time_shift_steps >= self._max_shift_steps:", rule='SHIFT/note-limit'),
+    Mutant('seed C07_c: MetricPerformance extracts with the default shift limit', PL, "          max_shift_steps=self._steps_per_quarter * max_shift_quarters,\n          instrument=instrument)", "          max_shift_steps=self._steps_per_quarter * DEFAULT_MAX_SHIFT_QUARTERS,\n          instrument=instrument)", rule='SHIFT/metric-limit'),
     Mutant('shift split loop not strict', PL, "        while step > current_step + max_shift_steps:", "        while step >= current_step + max_shift_steps:", rule='SHIFT/split-guard'),
     Mutant('full shift emits one step more', PL, "              PerformanceEvent(event_type=PerformanceEvent.TIME_SHIFT,\n                               event_value=max_shift_steps))\n          current_step += max_shift_steps", "              PerformanceEvent(event_type=PerformanceEvent.TIME_SHIFT,\n                               event_value=max_shift_steps + 1))\n          current_step += max_shift_steps", rule='SHIFT/full-amount'),
     Mutant('zero shifts emitted', PL, "      if step > current_step:\n        # Shift time forward from the current step to this event.", "      if step >= current_step:\n        # Shift time forward from the current step to this event.", rule='SHIFT/positive-only'),
